@@ -15,6 +15,7 @@ package c06
 
 import (
 	"bytes"
+	"encoding/binary"
 	"encoding/json"
 	"fmt"
 	"os"
@@ -50,6 +51,9 @@ type tpCase struct {
 	OverrideFrags []bool             `json:"overrideFrags,omitempty"`
 	OvIVSize      int                `json:"ovIVSize,omitempty"`
 	OvIVs         []harness.HexBytes `json:"ovIVs,omitempty"`
+	// SinfPos: place of sinf among the children of the protected sample entry: 0 = last (as mp4ff writes it),
+	// 1 = first, 2 = behind the first child
+	SinfPos int `json:"sinfPos,omitempty"`
 }
 
 // override reports whether sample i lies in a fragment with a seig override.
@@ -134,7 +138,7 @@ func (c *tpCase) buildEncrypted() (*cryptgen.Built, [][]byte, error) {
 			enc[i] = refcrypto.CbcsCrypt(cl.Key, tenc.ConstIV, clear[i], ranges, int(c.Crypt), int(c.Skip), false)
 		}
 	}
-	stsd := cryptgen.ProtectStsd(cl.Stsd, cl.Scheme, tenc)
+	stsd := cryptgen.ProtectStsdAt(cl.Stsd, cl.Scheme, tenc, c.SinfPos-1)
 	first := 0
 	firstOf := make([]int, len(cl.Frags))
 	for f := range cl.Frags {
@@ -226,6 +230,18 @@ func checkThirdParty(c tpCase) *harness.Fail {
 		return harness.Failf("C06|third-party|sample entry type not restored", "want %q", c.Clear.Codec)
 	} else if len(boxwalk.Find(e.Children, "sinf")) != 0 {
 		return harness.Failf("C06|third-party|sinf left in the sample entry", "")
+	} else {
+		// every child of the clear sample entry is still there, unchanged and in order
+		want := childTypesAndBytes(c.Clear.Stsd[16:])
+		got := childTypesAndBytes(out[e.Start:e.End()])
+		if len(got) != len(want) {
+			return harness.Failf("C06|third-party|children of the sample entry not kept through decryption", "decrypted entry has %d children %v, the clear entry %d %v (sinf was child %d of the protected entry)", len(got), names(got), len(want), names(want), c.SinfPos)
+		}
+		for i := range want {
+			if !bytes.Equal(got[i], want[i]) {
+				return harness.Failf("C06|third-party|children of the sample entry not kept through decryption", "child %d: %x, clear %x", i, got[i], want[i])
+			}
+		}
 	}
 	p, err := fragbuild.Read(out)
 	if err != nil {
@@ -296,6 +312,32 @@ func genSubs(t *rapid.T, c *cryptgen.Case, i int, style int, ivSize int) [][2]ui
 	return out
 }
 
+// childTypesAndBytes splits the children of a sample entry (visual or mp4a) into their raw boxes.
+func childTypesAndBytes(entry []byte) [][]byte {
+	at := 8 + 78
+	if len(entry) >= 8 && (string(entry[4:8]) == "mp4a" || string(entry[4:8]) == "enca") {
+		at = 8 + 28
+	}
+	var out [][]byte
+	for at+8 <= len(entry) {
+		n := int(binary.BigEndian.Uint32(entry[at:]))
+		if n < 8 || at+n > len(entry) {
+			break
+		}
+		out = append(out, entry[at:at+n])
+		at += n
+	}
+	return out
+}
+
+func names(bs [][]byte) []string {
+	var out []string
+	for _, b := range bs {
+		out = append(out, string(b[4:8]))
+	}
+	return out
+}
+
 func genThirdParty(t *rapid.T) tpCase {
 	avoid := map[string]bool{cryptgen.FeatExplicitBase: avoidKnown[cryptgen.FeatExplicitBase]}
 	c := tpCase{Clear: cryptgen.Gen(t, cryptgen.GenOpt{Avoid: avoid})}
@@ -306,6 +348,7 @@ func genThirdParty(t *rapid.T) tpCase {
 	c.AuxType = rapid.Bool().Draw(t, "auxType")
 	c.SaioV1 = rapid.IntRange(0, 3).Draw(t, "saioV1") == 0
 	c.Seig = rapid.IntRange(0, 2).Draw(t, "seig") == 0
+	c.SinfPos = rapid.SampledFrom([]int{0, 0, 1, 2}).Draw(t, "sinfPos")
 	n := len(cl.Samples)
 	if rapid.IntRange(0, 3).Draw(t, "seigOverride") == 0 {
 		// key-rotation style layout: some fragments override the track's tenc through a fragment-local seig entry
@@ -395,6 +438,7 @@ func tpClasses(c *tpCase) []string {
 	add(c.AuxType, "3p-aux-info-type-present")
 	add(c.SaioV1, "3p-saio-version-1")
 	add(c.Seig, "3p-seig-sample-group")
+	add(c.SinfPos != 0, fmt.Sprintf("3p-sinf-is-child-%d-of-the-entry", c.SinfPos))
 	if c.OverrideFrags != nil {
 		all := true
 		for _, o := range c.OverrideFrags {
